@@ -236,7 +236,11 @@ def check_cli(job):
         for d in {_os.path.dirname(k) for k in files} | {"in"}:
             files[d + "/zz_plain.cmake"] = "set(PLAIN 1)\n"
         box.build(files)
-        r = box.run(["-r", "-o", box.path("out"), box.path("work", "in")], cwd="work")
+        argv_inputs = [box.path("work", "in")]
+        if len(job) > 2:      # inputs: the two lone files and the directory 'mods', in the given order (f = file, d = directory)
+            lone = [box.path("work", "in", "lone_first.cmake"), box.path("work", "in", "lone_last.cmake")]
+            argv_inputs = [lone.pop(0) if c == "f" else box.path("work", "in", "mods") for c in job[2]]
+        r = box.run(["-r", "-o", box.path("out")] + argv_inputs, cwd="work")
         if r["status"] != 0:
             msgs.append(f"error: cminx -r -o out dir failed on {names}: {r['exc'] or r['stdout'][-200:]}")
         else:
@@ -317,6 +321,8 @@ def run(ctx):
                          "space_A": na, "space_B": nb, "space_C": nc}
     ctx.sweep(check, jobs, space="A+B+C")
     cjobs = [("cli", CLI_NAMES)] + [("cli", [a, b]) for a, b in itertools.combinations(CLI_NAMES, 2)]
+    # several inputs on one command line (lone files and directories, in both orders) into one output directory
+    cjobs += [("cli", ["lone_first.cmake", "mods/m1.cmake", "mods/sub/m2.cmake", "lone_last.cmake"], order) for order in ("fdf", "dff", "ffd")]
     ctx.sweep(check_cli, cjobs, space="CLI: sibling modules with confusable names", selftest=2)
     ctx.assumptions += ["leading/trailing empty lines of a body are not compared (indistinguishable from paragraph spacing)",
                         "relative indentation is compared modulo a common offset, as the statement says",
